@@ -190,11 +190,11 @@ Definition obs_eqb (a b : obs) : bool :=
 
 (* initial state given by its projection (the queue is given by its records) *)
 Definition mk_state (W : nat) (re : N) (cur : option N) (old : list N) (wins : list (bool * N * N))
-  (high : list N) (queue : list bytes) (cid : bytes) (cidneg rrc : bool) : rstate :=
+  (high : list N) (queue : list bytes) (cid : bytes) (cidneg rrc estab : bool) : rstate :=
   mk_rstate re cur old
     (map (fun t : bool * N * N => let '(m48, l, bm) := t in
             ((if m48 then maxseq48 else maxseq64), {| latest := l; mask := mask_of_bitmap W bm |})) wins)
-    high queue cid cidneg rrc false.
+    high queue cid cidneg rrc false estab.
 
 Record e2e_case := mk_e2e {
   ec_w : nat;
